@@ -210,6 +210,11 @@ func genC08L(c *Ctx) *Plan {
 	}
 	if r.chance(0.3) {
 		p.Ops = append(p.Ops, Op{At: T + to*1_000_000 + 2_000_000_000, Kind: "shutdown", Node: lv})
+	} else if r.chance(0.5) {
+		// the application keeps using the departed instance: a metadata update after Leave has
+		// nothing to announce (it may fail or time out) and must not bring the node back anywhere
+		p.Ops = append(p.Ops, Op{At: T + to*1_000_000 + int64(r.pick(50_000_000, 700_000_000, 2_500_000_000)), Kind: "update", Node: lv, A: int64(r.pick(200, 1000)), S: "meta-after-leave"})
+		p.P["update_after_leave"] = 1
 	}
 	if r.chance(0.35) && n >= 3 && p.Net.Loss == 0 {
 		// one peer misses all gossip around the leave (UDP cut, TCP open): it learns of the
@@ -225,6 +230,7 @@ func genC08L(c *Ctx) *Plan {
 		p.P["udp_isolated_peer"] = int64(peer)
 	}
 	p.YieldOff = genYieldOff(r)
+	p.Cfg.AliveDel = r.chance(0.5) // an accepting AliveDelegate: a preemption point if it is ever called without the node lock
 	return p
 }
 
@@ -445,6 +451,9 @@ func execC08L(c *Ctx) {
 	}
 	if _, ok := p.P["udp_isolated_peer"]; ok {
 		c.Reach("peer_learns_leave_by_pushpull")
+	}
+	if p.param("update_after_leave", 0) == 1 && okLeave {
+		c.Reach("update_node_after_successful_leave")
 	}
 	c.Res.Nontrivial = len(listedAtLeave) > 0 && (okLeave || c.Res.Stats["leave_errors"] > 0)
 	if os.Getenv("VERIF_DEBUG") != "" {
